@@ -272,6 +272,10 @@ def main():
                     break
                 # ---- representation of every object
                 for o, e in objs.items():
+                    if not st["consistent"][o]:
+                        # retagged while protected ("frozen" by design of
+                        # __exit__): no representation is asserted
+                        continue
                     got = numpy.array(e["obj"]._data)
                     want_d = ref_data(o, st["rep"][o])
                     err = _relerr(got, want_d)
